@@ -47,6 +47,16 @@ fn can_use_dot_notation(key: &str) -> bool {
         return false;
     }
 
+    // The expression parser reads these words as the end of an expression
+    // (`Parser::is_expr_terminator`), so `.and` parses as `.` followed by the
+    // operator, not as a field access. Such keys need the bracket form.
+    if matches!(
+        key,
+        "and" | "or" | "as" | "then" | "elif" | "else" | "end" | "catch"
+    ) {
+        return false;
+    }
+
     let mut chars = key.chars();
     let first = chars.next().unwrap();
 
